@@ -515,6 +515,12 @@ def rule4_custom_data(ctx, v3):
     if len(stks) != 1:
         return
     stk = stks[0].id
+    ss = [st for st in f.stores_to(TH + 'stack')]
+    ctx.ob('C12.4', 'create: th->stack is the pointer the stack allocation returned', len(ss) >= 1 and
+           all(f.strip(st.ops[0]) == stk for st in ss),
+           'the release reads the block header through th->stack: it must be the unmodified result of the allocation, not the '
+           'pointer after room for the hint was carved off', loc=(ss[0].loc if ss else f.loc),
+           detail='; '.join(expr_str(f, st.ops[0])[:80] for st in ss if f.strip(st.ops[0]) != stk))
     cps = [c for c in f.calls() if (c.callee or '').startswith('llvm.memcpy') and
            any(k in f.insts and f.insts[k].op == 'load' and f.field(f.insts[k]) == 'myth_thread_attr.custom_data' for k in f.sources(c.args[1]))]
     ctx.ob('C12.4', 'create: hint copied once', len(cps) == 1, 'memcpy(dest, attr->custom_data, attr->custom_data_size)', loc=f.loc)
@@ -607,6 +613,9 @@ def run(ctx):
 SCHED = 'src/myth_sched_func.h'
 MISC = 'src/myth_misc_func.h'
 MUTANTS = [
+    {'name': 'th->stack recorded after the hint was carved off the stack top (seed4 C13/m2)', 'expect': 'C12.4',
+     'edits': [(SCHED, "  new_thread->stack = stk;\n  new_thread->stack_size = stack_size;\n#else", "#else"),
+               (SCHED, "  init_myth_thread_struct(env, new_thread);\n  if (attr && attr->detachstate) {", "  init_myth_thread_struct(env, new_thread);\n  new_thread->stack = stk;\n  new_thread->stack_size = stack_size;\n  if (attr && attr->detachstate) {")]},
     {'name': 'cancel requester writes the exit value of the target (seed4 C12/m2)', 'expect': 'C12.1',
      'edits': [(SCHED, "  th->cancelled = 1;\n  myth_spin_unlock_body(&th->lock);", "  th->cancelled = 1;\n  th->result = MYTH_CANCELED;\n  myth_spin_unlock_body(&th->lock);")]},
     {'name': 'detach of a finished thread releases the record twice (seed3 C12/m1)', 'expect': 'C12.7',
